@@ -36,11 +36,14 @@ def jobs(tier):
         E(k, 7)
     for tc2 in (5, 13, 14):        # discarded left operand of a comma; cast to void
         E("ND_COMMA", 5, tc2)
-    E("ND_CAST", 13, 14); E("ND_CAST", 5, 14); E("ND_CAST", 5, 7)
+    E("ND_CAST", 13, 14); E("ND_CAST", 5, 14)
     for f in range(14):
         js.append(Job(name=f"cast-balance-from-{TI[f]}", src="castbal.c", group="C20 conversion balance", units=["type.c"], mode="plain", defs={"FROM": str(f)},
                       cut=["error", "error_tok", "error_at", "warn_tok"], no_checks=["signed-overflow", "undefined-shift"], timeout=600,
                       sample=f"cast({TI[f]}, to) for all 15 target types"))
+    for sg in ("n", "m", "l", "iiiiiiin"):
+        js.append(Job(name=f"call-balance-{sg}", src="../C06/call.c", group="C20 call-site stack adjustment", defs={"SIG": '\'"%s"\'' % sg, "SP0": "0"}, enforce="gen_expr", rec=True, replace=["gen_stmt"],
+                      tier="quick" if sg in ("n", "l") else "thorough", sample=f"call with memory-class arguments '{sg}': rsp and depth restored after the call", **CG))
     for k in STMTS:
         for cty in (13,) if tier == "quick" else (5, 13):    # integer-operand statements are run by C03 in the quick tier
             # a long double return value legitimately stays in %st(0) (psABI), so RETURN is only run with an integer operand
